@@ -6,7 +6,8 @@
     SAR: 00 unsegmented, 01 start (followed by the 2-byte SDU length), 10 end, 11 continuation
     sequence numbers are modulo 64; the transmit window is 1..63
 """
-from pyvc.contracts import at, ite
+from pyvc.contracts import at, forall, iff, implies, ite
+from pyvc.ext_c08 import subseq
 
 SEQ = 64
 UNSEG, START, END, CONT = 0, 1, 2, 3
@@ -93,3 +94,26 @@ def iframe_data(b):
 # -- FCS (3.3.5): CRC-16 over header and payload, polynomial x^16 + x^15 + x^2 + 1, LSB first, initial value 0 -------
 def l2cap_header(length, cid):
     return bytes([length % 256, length // 256, cid % 256, cid // 256])
+
+
+# -- segmentation of one SDU (8.? / 3.3.2 SAR): stated without multiplication ---------------------------------------
+def segmentation(n_sdu, sdu, mps, off, pay, sar, ln):
+    """`off/pay/sar/ln` (lists of equal length k >= 1) describe the I-frames that carry the SDU when at most mps bytes
+    of it fit in one frame: an SDU of at most mps bytes travels unsegmented; otherwise segment j starts at offset
+    off[j] = j * mps (given as off[0] = 0, off[j] = off[j-1] + mps), carries the next mps bytes (the rest in the last
+    one), the first is a START frame announcing the SDU length, the one that reaches the end of the SDU is the END
+    frame, the others are CONTINUATION frames"""
+    k = len(off)
+    return [
+        k >= 1 and len(pay) == k and len(sar) == k and len(ln) == k,
+        off[0] == 0,
+        forall(1, k, lambda j: off[j] == off[j - 1] + mps),
+        forall(0, k, lambda j: off[j] >= 0),
+        forall(0, k, lambda j: off[j] < n_sdu or j == 0),
+        off[k - 1] + mps >= n_sdu,
+        iff(k == 1, n_sdu <= mps),
+        forall(0, k, lambda j: pay[j] == subseq(sdu, off[j], mps)),
+        forall(0, k, lambda j: sar[j] == ite(k == 1, UNSEG, ite(j == 0, START, ite(off[j] + mps >= n_sdu, END, CONT)))),
+        forall(0, k, lambda j: ln[j] == ite(k == 1, 0, n_sdu)),
+    ]
+
